@@ -19,15 +19,19 @@
      gate again      `if self._state in END_STATES or self._close_pending: return` after every packet
      migration       server, 1-RTT, packet addressed to another host CID: change_connection_id()
 
-   Not represented (cannot raise on network input / not read by any check here): qlog, network-path bookkeeping
-   (MAX_NETWORK_PATHS = 8 >= 2 makes `pop(1)` safe), idle timer (C09: Timers.v), spin bit, packet-number spaces and
-   ACK scheduling (C08 / C10 / C12).
+     network paths   round s05: the table `_network_paths` is model/ConnPaths.v (_find_network_path, the MAX_NETWORK_PATHS
+                     bound with its eviction, `.index`, promotion, validation flags); [dgram_loop_paths] below runs it inside
+                     the packet loop: the server's first-flight `self._network_paths = [network_path]`, the payload's effects
+                     on path objects, and the "update network path" block after every packet that passed the gate
+
+   Not represented (cannot raise on network input / not read by any check here): qlog, idle timer (C09: Timers.v), spin
+   bit, packet-number spaces and ACK scheduling (C08 / C10 / C12), anti-amplification byte counts (C13).
 
    Oracles, one record per packet whose header parsed ([pkt_orc]): which host CID the destination CID equals, the
    verdict on a Retry packet (integrity tag = AES-GCM), the answer of decrypt_packet, and the TLS-layer oracle records
    for the handle_message calls made while this packet's CRYPTO frames are handled.  No proofs in this file. *)
 From AQ Require Import lib.Base lib.Tok model.RangeSet model.StreamRecv model.Frames gen.C05Tables model.ConnRecv.
-From AQ Require model.Codec model.Header model.TlsRecv gen.TlsDispatch.
+From AQ Require model.Codec model.Header model.TlsRecv gen.TlsDispatch model.ConnPaths.
 
 (* QuicConnectionState *)
 Inductive qstate := Q_FIRSTFLIGHT | Q_CONNECTED | Q_CLOSING | Q_DRAINING | Q_TERMINATED.
@@ -268,6 +272,65 @@ Fixpoint dgram_loop (fuel : nat) (patched : bool) (total : Z) (c : dconn) (bs : 
 Definition receive_datagram (patched : bool) (c : dconn) (data : list Z) (orcs : list pkt_orc) : dres :=
   if q_end (d_state c) || d_pending c then DOk c []
   else dgram_loop (S (length data)) patched (Zlen data) c data orcs [].
+
+(* ---------- the packet loop WITH the network-path table (model/ConnPaths.v) ------------------------------------------
+   What an iteration of the loop did is read off the trace entry it appended:
+     T_KEY / T_DECRYPT / T_PACKET + n   the packet got past the header decisions (`processed`): a server in FIRSTFLIGHT has
+                                        executed `self._network_paths = [network_path]` before looking for keys;
+     T_PACKET + n                       a payload was handled (`handled`; reserved bits: no payload, no effects): its
+                                        PATH_CHALLENGE / PATH_RESPONSE frames acted on path objects;
+     ... and the iteration continued    (SNextPkt) the gate was open: the "update network path" block runs;
+     ... and the iteration returned     (SDone) close / reserved bits: the block does not run.
+   [vs]: for the packets whose payload is handled, in order, what only the frame layer / the packet-number space know
+   (ConnPaths.ppkt: epoch is Handshake, probing, newest, which entries PATH_RESPONSE validated, PATH_CHALLENGE count);
+   k_reset and k_reached of the input are IGNORED: both are decided here. *)
+Definition appended (tr tr' : list Z) : bool := Zlen tr <? Zlen tr'.
+Definition processed (tr tr' : list Z) : bool := appended tr tr' && (T_KEY <=? last tr' 0).
+Definition handled (tr tr' : list Z) : bool := appended tr tr' && (T_PACKET <=? last tr' 0).
+Definition vk0 : ConnPaths.ppkt := ConnPaths.mkK false false false false false [] 0.
+Definition verdict (k : ConnPaths.ppkt) (reached : bool) : ConnPaths.ppkt :=
+  ConnPaths.mkK false reached (ConnPaths.k_hs k) (ConnPaths.k_probing k) (ConnPaths.k_newer k) (ConnPaths.k_resp k)
+                (ConnPaths.k_nchal k).
+
+Fixpoint dgram_loop_paths (fuel : nat) (patched : bool) (total : Z) (c : dconn) (bs : list Z) (orcs : list pkt_orc)
+         (tr : list Z) (tab : ConnPaths.ptable) (cur : ConnPaths.pent) (vs : list ConnPaths.ppkt)
+  : dres * ConnPaths.ures :=
+  match bs with
+  | [] => (DOk c tr, ConnPaths.UOk tab cur)
+  | _ :: _ =>
+  match fuel with
+  | O => (DOk c tr, ConnPaths.UOk tab cur)
+  | S fuel =>
+      let first := negb (c_is_client (d_st c)) && q_first (d_state c) in
+      match dgram_step patched total c bs orcs tr with
+      | SDone (DRaise k tr') => (DRaise k tr', ConnPaths.UOk tab cur)
+      | SDone (DOk c' tr') =>
+          let tab := if first && processed tr tr' then [cur] else tab in
+          if handled tr tr'
+          then (DOk c' tr', ConnPaths.path_packet tab cur (verdict (hd vk0 vs) false))
+          else (DOk c' tr', ConnPaths.UOk tab cur)
+      | SNextPkt c' next orcs' tr' =>
+          let tab := if first && processed tr tr' then [cur] else tab in
+          if handled tr tr'
+          then match ConnPaths.path_packet tab cur (verdict (hd vk0 vs) true) with
+               | ConnPaths.UOk tab' cur' => dgram_loop_paths fuel patched total c' next orcs' tr' tab' cur' (tl vs)
+               | ConnPaths.URaise k => (DRaise k tr', ConnPaths.URaise k)      (* IndexError / ValueError out of the block *)
+               end
+          else dgram_loop_paths fuel patched total c' next orcs' tr' tab cur vs
+      end
+  end
+  end.
+
+(* receive_datagram with the table: `network_path = self._find_network_path(addr)` comes after the gate *)
+Definition receive_datagram_paths (patched : bool) (c : dconn) (data : list Z) (orcs : list pkt_orc)
+           (s : ConnPaths.pstate) (addr : Z) (vs : list ConnPaths.ppkt) : dres * ConnPaths.pres :=
+  if q_end (d_state c) || d_pending c then (DOk c [], ConnPaths.PROk s)
+  else
+    let '(cur, next) := ConnPaths.find_network_path s addr in
+    match dgram_loop_paths (S (length data)) patched (Zlen data) c data orcs [] (ConnPaths.ps_tab s) cur vs with
+    | (r, ConnPaths.UOk tab _) => (r, ConnPaths.PROk (ConnPaths.mkPS tab next))
+    | (r, ConnPaths.URaise k) => (r, ConnPaths.PRRaise k)
+    end.
 
 (* ---------- executable interface ----------------------------------------------------------------------
    in : patched, connection scalars (state pending init hcl version vn_done retry_count host_cid), versions (list),
